@@ -175,6 +175,54 @@ def fam_factory(ctx, rng):
             ctx.violation(kind + ':edge_geometry', 'edge %r does not join its two vertices' % ((i, j),), desc); return
 
 
+def fam_placed_by_library(ctx, rng):
+    """a solid built at the origin, then placed with the library's OWN transforms (rotate about a general axis, then move; or move,
+    rotate_xy, scale ...), its faces shuffled and partly flipped before Polyface3D.from_faces: solid, outward, enclosed volume"""
+    b = rng.choice([[(0.0, 0.0), (6.0, 0.0), (6.0, 2.0), (2.0, 2.0), (2.0, 5.0), (0.0, 5.0)],
+                    G.star_polygon(rng, n=rng.randint(4, 7), R=8.0, center=(0.0, 0.0))])
+    hs = G.holes_in(rng, b, 1) if rng.random() < 0.3 else []
+    h = G.dy(rng.uniform(1, 6))
+    base = Face3D([P3((p[0], p[1], 0.0)) for p in b], holes=[[P3((p[0], p[1], 0.0)) for p in x] for x in hs] or None)
+    pf0 = Polyface3D.from_offset_face(base, h)
+    ref = abs(exact_volume(pf0.faces))
+    seq = rng.choice([('rotate', 'move'), ('rotate', 'move'), ('rotate_xy', 'move'), ('move', 'rotate'), ('rotate', 'scale', 'move'), ('reflect', 'move')])
+    faces = list(pf0.faces)
+    k_tot = 1.0
+    for op in seq:
+        if op == 'rotate':
+            ax, ang, og = V3(G.rvec3(rng, 3)), rng.uniform(0.3, 2.8), P3(G.rpt3(rng, 10))
+            faces = [f.rotate(ax, ang, og) for f in faces]
+        elif op == 'rotate_xy':
+            ang, og = rng.uniform(0.3, 2.8), P3(G.rpt3(rng, 10))
+            faces = [f.rotate_xy(ang, og) for f in faces]
+        elif op == 'move':
+            mv = V3(G.rvec3(rng, 20))
+            faces = [f.move(mv) for f in faces]
+        elif op == 'scale':
+            k = rng.choice([0.5, 2.0]); og = P3(G.rpt3(rng, 10)); k_tot *= k
+            faces = [f.scale(k, og) for f in faces]
+        else:
+            nrm, og = V3(G.rational_frame(rng)[2]), P3(G.rpt3(rng, 10))
+            faces = [f.reflect(nrm, og) for f in faces]
+    pert, flips = perturb(rng, faces)
+    desc = {'base': b, 'holes': hs, 'height': h, 'placement': list(seq), 'faces': [f.to_dict() for f in pert]}
+    ctx.count('solid.placed', key=(seq, len(faces), flips), sample={'placement': list(seq), 'faces': len(faces), 'flipped': flips}, nontrivial=True)
+    kind = 'solid.placed:' + '+'.join(seq)
+    try:
+        pf = Polyface3D.from_faces(pert, TOL)
+    except Exception as e:
+        ctx.violation(kind + ':raises', '%r' % (e,), desc); return
+    if not pf.is_solid:
+        ctx.violation(kind + ':not_solid', 'placed closed solid reported as not solid', desc); return
+    vol = exact_volume(pf.faces)
+    want = float(ref) * k_tot ** 3
+    if vol <= 0:
+        ctx.violation(kind + ':not_outward', 'faces do not all point outward after placement by %s: exact divergence volume %r (enclosed %r)' % (
+            '+'.join(seq), float(vol), want), desc); return
+    if abs(float(vol) - want) > 1e-7 * max(1.0, want) or abs(pf.volume - want) > 1e-7 * max(1.0, want):
+        ctx.violation(kind + ':volume', 'volume %r (faces give %r), enclosed volume %r' % (pf.volume, float(vol), want), desc)
+
+
 def fam_concave_caps(ctx, rng):
     """a prism over a concave base, one cap given wound inward and started at EVERY one of its vertices in turn (reflex corners
     included): the re-oriented solid is outward and has the enclosed volume"""
@@ -251,7 +299,7 @@ def fam_mesh(ctx, rng):
     check_edges(ctx, 'mesh', m, [[tuple(face)] for face in m.faces], desc)
 
 
-FAMILIES = [(fam_factory, 30), (fam_concave_caps, 8), (fam_solid, 60), (fam_open, 40), (fam_mesh, 100)]
+FAMILIES = [(fam_factory, 30), (fam_placed_by_library, 30), (fam_concave_caps, 8), (fam_solid, 60), (fam_open, 40), (fam_mesh, 100)]
 
 
 def explore(ctx):
